@@ -49,6 +49,8 @@ var verifC16Pairs = []string{
 	"mgmt:cs-capacity / fw:cs-evict",
 	"mgmt:strategy-set / mgmt:rib-unregister",
 	"mgmt:fib-remove / face:cleanup",
+	"mgmt:fib-add / mgmt:fib-dump (the call only)",
+	"mgmt:rib-register / mgmt:strategy-dump (the call only)",
 }
 
 func VerifC16_OperationPairs() {
@@ -89,6 +91,12 @@ func VerifC16_OperationPairs() {
 		verifConcurrently(label, stratset, unreg)
 	case 9:
 		verifConcurrently(label, func() { FibStrategyTable.RemoveNextHopEnc(verifC16Name("/a"), 1) }, cleanup1)
+	case 10:
+		// the table walk of the status datasets, not what the caller does with the entries afterwards (see above): it
+		// takes the same locks as the updates and must not be able to block them for ever
+		verifConcurrently(label, fibadd, func() { _ = FibStrategyTable.GetAllFIBEntries() })
+	case 11:
+		verifConcurrently(label, reg, func() { _ = FibStrategyTable.GetAllForwardingStrategies() })
 	case 7:
 		csReplacementPolicy = "lru"
 		cs := NewPitCS(func(PitEntry) {})
